@@ -602,6 +602,10 @@ def run(ctx, ck):
                 alts.append((e_, at_))
             follow(it_, gfl_.cfg.node_of(il))
             full = bool(alts) and all(isinstance(a_, ast.Name) and a_.id in azi_names for a_, at_ in alts)
+            if not full and not any(isinstance(a_, (ast.Subscript, ast.Call, ast.List, ast.Tuple, ast.IfExp)) for a_, at_ in alts):
+                # the iterable is held in something this rule does not look into (a field of a record, a parameter)
+                raise AnalysisError('%s: what the azimuth loop ranges over (%s) could not be traced to the azimuth phasor array'
+                                    % (g_.qual, sorted({norm(a_) for a_, at_ in alts})))
             ck.ob('R-EXH.accumulate', g_.qual + '|all-azimuths', full, g_.loc(il),
                   'the azimuth loop ranges over the whole azimuth grid %s' % sorted(azi_names) if full else
                   'the azimuth loop ranges over %s: not (always) the whole azimuth grid %s - directions left out '
